@@ -685,6 +685,12 @@ namespace
                 commit(*h[o], now, "an assignment (source)");
             }
             if (h[s]->addr() != before) viol("model", "rebind", "assignment rebound the wrapper instead of changing what it designates");
+            if (move)
+            {
+                // what a moving assignment leaves in its source is unspecified (this implementation swaps; moving out of the
+                // source's referent would be as legitimate): a moved-from mark on a referent is not judged here
+                for (int r = 0; r < 3; ++r) if (refs[r]->obj.moved) { refs[r]->obj.moved = false; registry().set(&refs[r]->obj, refs[r]->obj.id, false); }
+            }
             SIM_PROBE(move ? "wrapper_move_assigned" : "wrapper_assigned");
             ++run.changing;
             check_all();
